@@ -6,6 +6,7 @@ and diff the outputs, to confirm that a "fix:" commit changes only what it is
 meant to change.
 
 usage: tools/regress_diff.py [base-commit] [--keep]     (default base: d131d1f)
+       REGRESS_NEW=<tree> compares with that tree instead of /repo's working tree
 """
 import ast
 import os
@@ -62,7 +63,7 @@ def main():
     try:
         descs = testdescs()
         outs = {}
-        for tag, tree in (("out-base", bt), ("out-new", REPO)):
+        for tag, tree in (("out-base", bt), ("out-new", os.environ.get("REGRESS_NEW") or REPO)):
             outroot = os.path.join(w, tag)
             with ThreadPoolExecutor(max_workers=8) as ex:
                 rcs = list(ex.map(lambda d: run_one(tree, outroot, d), descs))
